@@ -40,7 +40,7 @@ func genC09(t *rapid.T) C09Case {
 	if rapid.IntRange(0, 9).Draw(t, "capfree") == 0 {
 		c.Capacity = rapid.Uint32Range(0, 200000).Draw(t, "capv")
 	}
-	c.Ops = rapid.SliceOfN(rapid.Custom(genC09Op), 1, 40).Draw(t, "ops")
+	c.Ops = genSlice(t, rapid.Custom(genC09Op), 1, 40, "ops")
 	return c
 }
 
